@@ -144,7 +144,11 @@ static void run(int tier, long idx, vf_result *r)
 		elog.count ? elog.msg[0] : "?");
 	goto out;
     }
+    /* the system impedance is declared as 75-5j ohm where the first handle
+       is 8: S-parameters do not depend on it, the result object names it */
+    cs_system_z0 = fill == 5 ? 75.0 - 5.0 * I : 0.0;
     vnp = cs_build(vcp, &sc);
+    cs_system_z0 = 0.0;
     r->transitions += sc.nstd + 2;
     if (vnp == NULL) {
 	char sig[100];
@@ -280,6 +284,15 @@ static void run(int tier, long idx, vf_result *r)
 			ab ? "" : "_m", arc, elog.count ?
 			elog.msg[elog.count - 1 < VF_ERRLOG_MAX ?
 			elog.count - 1 : 0] : "");
+		break;
+	    }
+	    if (cs_apply_z0_mismatch) {
+		vf_fail(r, "apply-z0", "the calibration's system impedance "
+			"is %g%+gj ohm (vnacal_get_z0), the S-parameters "
+			"vnacal_apply%s returns are labelled %g%+gj ohm",
+			creal(cs_apply_z0_expected),
+			cimag(cs_apply_z0_expected), ab ? "" : "_m",
+			creal(cs_apply_z0_got), cimag(cs_apply_z0_got));
 		break;
 	    }
 	    if (!(e <= worst))
